@@ -806,3 +806,108 @@ func methodNamesComeBeforeItems(c *core.Ctx) {
 	}
 	c.Stat("attribute_lookups_into_items", n)
 }
+
+// ---------------------------------------------------------------------------
+// whatATableMayNotHoldIsNotDereferenced (C03, C02, C09): in package vm, a
+// pointer read from a table with the one-value form of the index expression is
+// nil when the key is absent.  It is not dereferenced - here, or by the
+// function it is handed to - unless it has been compared with nil, or the
+// look-up stands behind a test that the key is present.  The tables of loaded
+// code are emptied by RunCode and snapshotted by Clone: a function value
+// outlives both, and calling it then looks its root code up in a table that no
+// longer (or not yet) holds it.
+func whatATableMayNotHoldIsNotDereferenced(c *core.Ctx) {
+	p := c.P
+	n := 0
+	derefsParam := func(cal *ssa.Function, idx int) bool {
+		if cal.Blocks == nil || idx >= len(cal.Params) {
+			return false
+		}
+		prm := ssa.Value(cal.Params[idx])
+		if prm.Referrers() == nil {
+			return false
+		}
+		deref, tested := false, false
+		for _, r := range *prm.Referrers() {
+			switch x := r.(type) {
+			case *ssa.FieldAddr:
+				if x.X == prm {
+					deref = true
+				}
+			case *ssa.BinOp:
+				if k, ok := x.Y.(*ssa.Const); ok && k.IsNil() {
+					tested = true
+				}
+				if k, ok := x.X.(*ssa.Const); ok && k.IsNil() {
+					tested = true
+				}
+			}
+		}
+		return deref && !tested
+	}
+	for _, fn := range repoFns(p, "vm") {
+		k := 0
+		for _, b := range fn.Blocks {
+			for _, in := range b.Instrs {
+				lk, ok := in.(*ssa.Lookup)
+				if !ok || lk.CommaOk {
+					continue
+				}
+				mt, ok := lk.X.Type().Underlying().(*types.Map)
+				if !ok {
+					continue
+				}
+				if _, isPtr := mt.Elem().Underlying().(*types.Pointer); !isPtr || lk.Referrers() == nil {
+					continue
+				}
+				// the same key was found present on the way here (a comma-ok look-up of the same table and key whose ok branch dominates)
+				present := false
+				for _, b2 := range fn.Blocks {
+					for _, in2 := range b2.Instrs {
+						l2, ok := in2.(*ssa.Lookup)
+						if !ok || !l2.CommaOk || l2.Index != lk.Index || l2.Referrers() == nil {
+							continue
+						}
+						for _, r := range *l2.Referrers() {
+							if ex, ok := r.(*ssa.Extract); ok && ex.Index == 1 && core.BoolGuardDominates(ex, true, b) {
+								present = true
+							}
+						}
+					}
+				}
+				tested := false
+				where := ""
+				for _, r := range *lk.Referrers() {
+					switch x := r.(type) {
+					case *ssa.BinOp:
+						tested = true
+					case *ssa.FieldAddr:
+						if x.X == ssa.Value(lk) {
+							where = "dereferenced at " + p.Pos(x.Pos())
+						}
+					case ssa.CallInstruction:
+						cal := x.Common().StaticCallee()
+						if cal == nil {
+							continue
+						}
+						for i, a := range x.Common().Args {
+							if a == ssa.Value(lk) && derefsParam(cal, i) {
+								where = "handed to " + cal.Name() + ", which dereferences it, at " + p.Pos(x.Pos())
+							}
+						}
+					}
+				}
+				if where == "" {
+					continue
+				}
+				n++
+				k++
+				okk := tested || present
+				c.Check(okk, core.SSAName(fn)+"|table-entry-dereferenced|"+itoa(k), p.Pos(lk.Pos()),
+					core.SSAName(fn)+" reads a pointer from a table and it is "+where+ife(okk, ", after a test for nil or for the presence of the key", " with no test for nil and no test that the key is present: when the table does not hold the key (it was emptied by a later RunCode, or it is a clone's snapshot taken before the entry was made) this is a nil dereference"))
+			}
+		}
+	}
+	c.Pass("vm|table-entries", "", sprintf("%d pointers read from tables of package vm and dereferenced", n))
+	c.Stat("table_entries_dereferenced", n)
+}
